@@ -79,6 +79,27 @@ pub fn exec(toks: &[&str]) -> String {
                 Ok(m) => describe(m.content(), &base),
             }
         }
+        ["enc", number, this, next, files] => {
+            // the library's encoder: ManifestContent::new(..).encode_ref() => DER hex
+            use rpki::repository::manifest::FileAndHash;
+            use rpki::repository::x509::Serial;
+            use chrono::TimeZone;
+            let Some(num) = unhex(number) else { return "bad-op".into() };
+            let Ok(serial) = Serial::from_slice(&num) else { return "bad-serial".into() };
+            let (Ok(t), Ok(n)) = (this.parse::<i64>(), next.parse::<i64>()) else { return "bad-op".into() };
+            let (Some(t), Some(n)) = (chrono::Utc.timestamp_opt(t, 0).single(), chrono::Utc.timestamp_opt(n, 0).single()) else { return "bad-op".into() };
+            let mut fs = Vec::new();
+            if *files != "-" {
+                for f in files.split(';') {
+                    let mut it = f.split(':');
+                    let (Some(a), Some(b)) = (it.next().and_then(unhex), it.next().and_then(unhex)) else { return "bad-op".into() };
+                    fs.push(FileAndHash::new(a, b));
+                }
+            }
+            let c = ManifestContent::new(serial, Time::new(t), Time::new(n), DigestAlgorithm::sha256(), fs.iter());
+            use bcder::encode::Values;
+            hex(c.encode_ref().to_captured(Mode::Der).as_slice())
+        }
         ["hash", h, data] => {
             let Some(h) = unhex(h) else { return "bad-op".into() };
             let Some(data) = unhex(data) else { return "bad-op".into() };
@@ -339,6 +360,17 @@ pub fn generate(ctx: &mut Ctx) {
             }
             ctx.case(&format!("hash {} {}", hex(&h), hex(&data)));
         }
+    }
+    // the encoder: ManifestContent::new + encode_ref on conforming inputs (tied to the Lean encoder model)
+    for _ in 0..n / 10 {
+        let nl = rng.range(1, 20) as usize;
+        let mut num = rng.bytes(nl);
+        num[0] &= 0x7f;
+        let t = rng.range(0, 4_000_000_000) as i64 - if rng.chance(1, 8) { 5_000_000_000 } else { 0 };
+        let nx = t + rng.range(0, 100_000_000) as i64;
+        let k = match rng.below(6) { 0 => 0, 1 => rng.range(10, 60), _ => rng.range(1, 4) };
+        let fs: Vec<String> = (0..k).map(|_| { let hl = if rng.chance(1, 6) { rng.range(0, 40) as usize } else { 32 }; format!("{}:{}", hex(&good_name(&mut rng)), hex(&rng.bytes(hl))) }).collect();
+        ctx.case(&format!("enc {} {} {} {}", hex(&num), t, nx, if fs.is_empty() { "-".into() } else { fs.join(";") }));
     }
     // standard digests
     ctx.case(&format!("hash {} {}", "e3b0c44298fc1c149afbf4c8996fb92427ae41e4649b934ca495991b7852b855", "-"));
